@@ -489,8 +489,9 @@ func splitHostURI(host, uri []byte) ([]byte, []byte, []byte) {
 	n := bytes.IndexByte(uri, '/')
 	if n < 0 {
 		// A hack for bogus urls like foobar.com?a=b without
-		// slash after host.
-		if n = bytes.IndexByte(uri, '?'); n >= 0 {
+		// slash after host (or foobar.com#frag: the host ends where the query or the
+		// fragment begins, whichever comes first).
+		if n = bytes.IndexAny(uri, "?#"); n >= 0 {
 			return scheme, uri[:n], uri[n:]
 		}
 		return scheme, uri, bytestr.StrSlash
